@@ -92,19 +92,35 @@ func (ImplCodec) Exec(line string) (obs string) {
 			}
 			return fmt.Sprintf("ok %s %s", ptsStr([]wt.Point{p}), restObs(src, rest))
 		case "points":
-			var pp wt.Points
-			rest, err := pp.TakeFrom(src)
-			if err != nil {
-				return errObs(err)
+			// decoded twice: into a fresh destination and into one that already holds points
+			// (TakeFrom is a method on a destination the caller may reuse); the results must agree
+			decP := func(pp *wt.Points) string {
+				rest, err := pp.TakeFrom(src)
+				if err != nil {
+					return errObs(err)
+				}
+				return fmt.Sprintf("ok %s %s", ptsStr(*pp), restObs(src, rest))
 			}
-			return fmt.Sprintf("ok %s %s", ptsStr(pp), restObs(src, rest))
+			var fresh wt.Points
+			used := wt.Points{{Time: 7, Value: 7}, {Time: 8, Value: 8}, {Time: 9, Value: 9}}
+			a, b := decP(&fresh), decP(&used)
+			if a != b {
+				return "fresh/used differ: " + a + " | " + b
+			}
+			return a
 		case "series":
-			ts := &wt.TimeSeries{}
-			rest, err := ts.TakeFrom(src)
-			if err != nil {
-				return errObs(err)
+			decS := func(ts *wt.TimeSeries) string {
+				rest, err := ts.TakeFrom(src)
+				if err != nil {
+					return errObs(err)
+				}
+				return fmt.Sprintf("ok %d %d %d %s %s", uint32(ts.FromTime()), uint32(ts.UntilTime()), int32(ts.Step()), valsStr(ts.Values()), restObs(src, rest))
 			}
-			return fmt.Sprintf("ok %d %d %d %s %s", uint32(ts.FromTime()), uint32(ts.UntilTime()), int32(ts.Step()), valsStr(ts.Values()), restObs(src, rest))
+			a, b := decS(&wt.TimeSeries{}), decS(wt.NewTimeSeries(3, 11, 2, []wt.Value{1, 2, 3, 4}))
+			if a != b {
+				return "fresh/used differ: " + a + " | " + b
+			}
+			return a
 		case "arch":
 			var a wt.ArchiveInfo
 			rest, err := a.TakeFrom(src)
@@ -113,12 +129,24 @@ func (ImplCodec) Exec(line string) (obs string) {
 			}
 			return fmt.Sprintf("ok %s %s", archStrFromBytes(a.AppendTo(nil)), restObs(src, rest))
 		case "header":
-			h := &wt.Header{}
-			rest, err := h.TakeFrom(src)
-			if err != nil {
-				return errObs(err)
+			decH := func(h *wt.Header) string {
+				rest, err := h.TakeFrom(src)
+				if err != nil {
+					return errObs(err)
+				}
+				return fmt.Sprintf("ok %s %s", headerObs(h), restObs(src, rest))
 			}
-			return fmt.Sprintf("ok %s %s", headerObs(h), restObs(src, rest))
+			used := &wt.Header{}
+			if ul, err := wt.ParseArchiveInfoList("1s:5s,5s:1m,1m:1h"); err == nil {
+				if uh, err := wt.NewHeader(wt.Max, 0.25, ul); err == nil {
+					used = uh
+				}
+			}
+			a, b := decH(&wt.Header{}), decH(used)
+			if a != b {
+				return "fresh/used differ: " + a + " | " + b
+			}
+			return a
 		}
 	case "enc":
 		switch tk[1] {
